@@ -76,6 +76,14 @@ def prepare(units, tag, extra_cfg=None):
         for f in [u.get("file")] + list(u.get("extra_files", [])):
             if f and f not in files and u.get("backend", "kani") == "kani":
                 files.append(f)
+    changed = True
+    while changed:
+        changed = False
+        for f in list(files):
+            for dep in units_mod.FILE_DEPS.get(f, []):
+                if dep not in files:
+                    files.append(dep)
+                    changed = True
     for f in files:
         inject.inject_harness_file(d, f, log)
     contracts = []
@@ -452,6 +460,10 @@ def report(prop, tier, sel, results, inj_log, wall, write_evidence=True):
                 rc = 2
     for l in lines:
         print(l)
+    for u in sel:
+        ur = results.get(u["id"], {"harnesses": {}})
+        for hn, c in ur["harnesses"].items():
+            print("  H %-72s %-9s %6.1fs checks=%d %s" % (hn, c["status"], c.get("time_s", 0), c.get("checks", 0), (c.get("reason") or "")[:90]))
     funcs_hashed = []
     seen = set()
     for f in functions:
@@ -526,9 +538,6 @@ def main():
             prop = a.property or sel[0]["props"][0]
             results, lg, wall = run_units(sel, a.tier, prop, keep=a.keep, jobs=a.jobs)
             rc = report(prop, a.tier, sel, results, lg, wall, write_evidence=False)
-            for uid, ur in results.items():
-                for hn, c in ur["harnesses"].items():
-                    print("  %-70s %-9s %6.1fs checks=%d %s" % (hn, c["status"], c.get("time_s", 0), c.get("checks", 0), c.get("reason", "")[:100]))
             return rc
         prop = a.property
         sel = [u for u in units_mod.UNITS if prop in u["props"] and (a.tier == "thorough" or u.get("tier", "quick") == "quick")]
